@@ -14,7 +14,7 @@ EXTENDS Integers, Sequences, FiniteSets, TLC, Json, CSV
 CONSTANT Chunks      \* number of Write calls a successful render makes (the implementation: 1)
 
 Entries == {"File.Render", "File.Save", "Statement.Render", "Statement.RenderWithFile", "Group.Render", "Group.RenderWithFile"}
-Targets == {"absent", "present", "isdir", "missingdir", "parentisfile"}
+Targets == {"absent", "present", "nearsame", "isdir", "missingdir", "parentisfile"}   \* nearsame: an existing file that differs from the output only by white space
 Params == [entry : Entries \ {"File.Save"}, valid : BOOLEAN, noformat : BOOLEAN, failAt : 0..2, target : {"none"}]
           \cup [entry : {"File.Save"}, valid : BOOLEAN, noformat : BOOLEAN, failAt : {0}, target : Targets]
 InDomain(p) == p.noformat => p.entry \in {"File.Render", "File.Save"}     \* only a File has NoFormat
@@ -27,7 +27,7 @@ VARIABLES p,        \* the parameters of this call
           fs        \* the Save target: absent | old | new | dir
 vars == <<p, pc, calls, okbytes, result, fs>>
 
-FsInit(t) == CASE t = "present" -> "old" [] t = "isdir" -> "dir" [] OTHER -> "absent"
+FsInit(t) == CASE t \in {"present", "nearsame"} -> "old" [] t = "isdir" -> "dir" [] OTHER -> "absent"
 Init == /\ p \in {x \in Params : InDomain(x)} /\ pc = "start" /\ calls = 0 /\ okbytes = 0 /\ result = "none"
         /\ fs = FsInit(p.target)
 
@@ -47,7 +47,7 @@ WriteFail  == /\ pc = "writing" /\ calls < Chunks /\ calls + 1 = p.failAt
 WriteDone  == /\ pc = "writing" /\ calls = Chunks /\ pc' = "done" /\ result' = "nil"
               /\ UNCHANGED <<p, calls, okbytes, fs>>
 SaveFile   == /\ pc = "saving" /\ pc' = "done"
-              /\ IF p.target \in {"absent", "present"} THEN fs' = "new" /\ result' = "nil"
+              /\ IF p.target \in {"absent", "present", "nearsame"} THEN fs' = "new" /\ result' = "nil"
                  ELSE fs' = fs /\ result' = "fserror"
               /\ UNCHANGED <<p, calls, okbytes>>
 Next == RenderBody \/ Assemble \/ FormatOK \/ FormatFail \/ WriteOK \/ WriteFail \/ WriteDone \/ SaveFile
@@ -58,7 +58,7 @@ NoWriteBeforeFormat        == pc \in {"start", "body", "assembled"} => (calls = 
 FailedRenderWritesNothing  == result = "fmterror" => (calls = 0 /\ okbytes = 0)
 SaveLeavesTargetOnFailure  == result = "fmterror" => fs = FsInit(p.target)
 WriterErrorReturned        == (pc = "done" /\ p.failAt # 0 /\ p.failAt <= Chunks /\ (p.noformat \/ p.valid)) => result = "writeerror"
-FsErrorReturned            == (pc = "done" /\ p.entry = "File.Save" /\ (p.noformat \/ p.valid) /\ p.target \notin {"absent", "present"}) => result = "fserror"
+FsErrorReturned            == (pc = "done" /\ p.entry = "File.Save" /\ (p.noformat \/ p.valid) /\ p.target \notin {"absent", "present", "nearsame"}) => result = "fserror"
 SuccessWritesExactlyOutput == result = "nil" => (IF p.entry = "File.Save" THEN fs = "new" /\ calls = 0 ELSE okbytes = Chunks)
 NilOnlyWhenFormatted       == result = "nil" => (p.noformat \/ p.valid)
 
@@ -66,7 +66,7 @@ NilOnlyWhenFormatted       == result = "nil" => (p.noformat \/ p.valid)
 Outcome(q) ==
   IF ~q.noformat /\ ~q.valid THEN [result |-> "fmterror", calls |-> 0, fs |-> FsInit(q.target)]
   ELSE IF q.entry = "File.Save"
-       THEN IF q.target \in {"absent", "present"} THEN [result |-> "nil", calls |-> 0, fs |-> "new"]
+       THEN IF q.target \in {"absent", "present", "nearsame"} THEN [result |-> "nil", calls |-> 0, fs |-> "new"]
             ELSE [result |-> "fserror", calls |-> 0, fs |-> FsInit(q.target)]
        ELSE IF q.failAt # 0 /\ q.failAt <= Chunks THEN [result |-> "writeerror", calls |-> q.failAt, fs |-> "absent"]
             ELSE [result |-> "nil", calls |-> Chunks, fs |-> "absent"]
